@@ -338,7 +338,7 @@ def run(ctx):
     g = fx(ctx, "shared_buffer")
     ctx.fixture("R09.4", "shared_buffer", g is not None and bool(static_locals(g)), True, "static/thread_local buffer recognised")
     # R09.6 fixtures: the acquire-loop check must reject the broken spin lock, accept the correct one, and a timed lock object must not count as held
-    for nm, want_bad in (("spin_sinks::with_broken", True), ("spin_sinks::with_good", False)):
+    for nm, want_bad in (("spin_sinks::with_broken", True), ("spin_sinks::with_good", False), ("spin_sinks::with_wrapping_ticket", True), ("spin_sinks::with_good_ticket", False)):
         g = fx(ctx, nm)
         got = None
         if g is not None:
